@@ -79,6 +79,10 @@ func pkSelect(db *sdb.Database, s *sdb.Schema, key Key, cb RowCB, columns []stri
 		}
 		return nil
 	}
+	if s.PrimaryKey == "" {
+		// (an index may be named "": it is not the primary key for that)
+		return errors.New("table has no primary key")
+	}
 	ind := s.NamedIndex(s.PrimaryKey)
 	if ind == nil {
 		return errors.New("table has no primary key")
